@@ -422,6 +422,24 @@ fn fam_random_bits<const N: usize>(ctx: &Ctx) {
                 other => fail(l, fam, "Int::try_random_bits_with_precision", "precision_mismatch", &wname, vec![format!("bit_length={bl}"), format!("precision={prec}")], "Err(BitsPrecisionMismatch)".into(), format!("{other:?}"), other.is_err()),
             }
         }
+        // both arguments wrong at once (bit length above the width AND a foreign precision) with bit_length <= precision:
+        // BitLengthTooLarge is documented as "bit_length is larger than bits_precision", which is false here, so the only
+        // documented answer is BitsPrecisionMismatch - for Uint and Int alike, consuming nothing.  (bit_length > precision
+        // != BITS fits both descriptions and is not driven.)
+        for (blx, prec) in [(bits_ + 1, bits_ + 64), (bits_ + 44, 2 * bits_)] {
+            let mut r = ScriptRng::from_bytes(&[0xff; 64]);
+            l.form("Uint::try_random_bits_with_precision");
+            match guard(|| Uint::<N>::try_random_bits_with_precision(&mut r, blx, prec)) {
+                Ok(Err(RandomBitsError::BitsPrecisionMismatch { .. })) if r.pos == 0 => {}
+                other => fail(l, fam, "Uint::try_random_bits_with_precision", "both_arguments_wrong", &wname, vec![format!("bit_length={blx}"), format!("precision={prec}")], "Err(BitsPrecisionMismatch), nothing consumed".into(), format!("{other:?} pos={}", r.pos), other.is_err()),
+            }
+            let mut r = ScriptRng::from_bytes(&[0xff; 64]);
+            l.form("Int::try_random_bits_with_precision");
+            match guard(|| Int::<N>::try_random_bits_with_precision(&mut r, blx, prec)) {
+                Ok(Err(RandomBitsError::BitsPrecisionMismatch { .. })) if r.pos == 0 => {}
+                other => fail(l, fam, "Int::try_random_bits_with_precision", "both_arguments_wrong", &wname, vec![format!("bit_length={blx}"), format!("precision={prec}")], "Err(BitsPrecisionMismatch), nothing consumed".into(), format!("{other:?} pos={}", r.pos), other.is_err()),
+            }
+        }
         // matching precision: Uint and Int agree in value and stream position
         {
             let st = vec![0xa7u8; 8 * N + 16];
